@@ -194,4 +194,31 @@ def isCollect : Call → Bool | .collect _ => true | _ => false
 def positionsOf (k : Call → Bool) (log : List Ev) : List (Int × Nat) :=
   (log.filter (fun e => k e.call)).map pos
 
+/-! ### wave 2: cancellation (`scheduler.running`)
+
+`Scheduler.__init__` sets `running = True`; `SimultaneousScheduler.run` tests it before every round and before
+every step (`else: break`) and never sets it.  It is a public attribute: a callback (or another thread) that
+clears it cancels the run after the step in progress.  Modelled per position: `cancel r s` = some callback of
+step (r, s) clears the flag (the harness does it in `begin_round` / `end_round`, which always run). -/
+
+/-- one iteration of the inner loop: `if self.running: self.run_step(...) else: break`. -/
+def stepC (c : Cfg) (P : Prog) (sp : Spec) (cancel : Int → Nat → Bool) (x : St × Bool) (r : Int) (s : Nat) : St × Bool :=
+  if x.2 then (runStep c P sp x.1 r s, !cancel r s) else x
+
+/-- one iteration of the outer loop: `if self.running: for step in …` `else: break`. -/
+def roundC (c : Cfg) (P : Prog) (sp : Spec) (cancel : Int → Nat → Bool) (x : St × Bool) (r : Int) : St × Bool :=
+  if x.2 then (List.range sp.n).foldl (fun x s => stepC c P sp cancel x r s) x else x
+
+/-- `SimultaneousScheduler.run` with the flag: (final state, final `scheduler.running`). -/
+def runC (c : Cfg) (P : Prog) (sp : Spec) (cancel : Int → Nat → Bool) (pop0 : Pop) (running0 : Bool) : St × Bool :=
+  (rounds sp).foldl (roundC c P sp cancel) (St.init pop0, running0)
+
+/-- the positions up to and including the first one at which the flag is cleared. -/
+def cut (f : Int × Nat → Bool) : List (Int × Nat) → List (Int × Nat)
+  | [] => []
+  | p :: ps => p :: (if f p then [] else cut f ps)
+
+/-- number of `create_agent` calls in an action list. -/
+def creates (acts : List Act) : Nat := (acts.filter (fun a => a == Act.create)).length
+
 end Bptk.C12
